@@ -369,13 +369,16 @@ func TestVerif(t *testing.T) {
 	queue.VerifSetDontRecover(false)
 	sc := &scanner{}
 	sn := &snapper{}
+	ms := &metaSnapper{}
 	osshim.SetRecorder(osshim.RecorderFunc(func(op osshim.Op) {
 		sc.scan("fs-step " + op.Kind + "/" + op.Phase)
 		sn.op(op)
+		ms.op(op)
 	}))
 	defer osshim.SetRecorder(nil)
 
 	bounceCases(t, r, sc)
+	metaCrashCases(t, r, sc, ms)
 
 	n := r.N(1200, 16000)
 	for i := 0; i < n; i++ {
@@ -476,7 +479,7 @@ func TestVerif(t *testing.T) {
 
 			longRetry := hist == hRestartBeforeRetry || hist == hTwoRestarts || hist == hRestartPartial
 			newQ := func(retry time.Duration) *queue.Queue {
-				q, err := queue.VerifNewQueue(queue.VerifOpts{Dir: spool, Target: tgt, MaxTries: 5, InitialRetryTime: retry, RetryTimeScale: 1})
+				q, err := queue.VerifNewQueue(queue.VerifOpts{Dir: spool, Target: maybeMutating(tgt), MaxTries: 5, InitialRetryTime: retry, RetryTimeScale: 1})
 				if err != nil {
 					t.Fatal(err)
 				}
